@@ -458,6 +458,27 @@ static void gen_cases(const sx::Options& opt, std::vector<sx::Case>& cases) {
         int alg = made % 3; auto sp = std::make_shared<Spec2>(s);
         add("net2d/consistent/" + s.name + "/" + ALGS[alg] + "/acord", "plane networks", [sp, alg] { case_consistent(*sp, alg, true); });
         made++; } }
+    // other strategies of Acord2 in integer geometries (general position), coordinates of the free points omitted: a traverse between two
+    // fixed points oriented at both ends / at its start only / entered from the far end of the listing; forward intersection of directions
+    // from stations oriented by one fixed target; intersection of distances with a third one to choose between the two solutions;
+    // polar method from a station oriented by a single fixed target; circle zeros chosen so that some sets cross 0/400 gon
+    { auto P = [](const char* id, long x, long y, char st) { return P2{id, Q(x), Q(y), st, true}; };
+      auto D = [](int to) { return O2{0, to, 0, Q(10)}; }; auto L = [](int to) { return O2{1, to, 0, Q(5)}; };
+      std::vector<Spec2> extra;
+      for (int v = 0; v < 3; v++) { Spec2 s; s.name = v == 0 ? "traverse-both-ends" : v == 1 ? "traverse-open" : "traverse-listed-backwards";
+        s.pts = {P("A", 0, 0, 'f'), P("Z1", -300, 120, 'f'), P("P1", 120, 160, 'a'), P("P2", 300, -80, 'a'), P("P3", 580, 16, 'a'), P("B", 820, -54, v == 1 ? 'a' : 'f'), P("Z2", 1000, 300, 'f')};
+        std::vector<St2> st{{0, Q(13, 10), {D(1), D(2), L(2)}}, {2, Q(57, 10), {D(0), D(3), L(3)}}, {3, Q(29, 10), {D(2), D(4), L(4)}}, {4, Q(3, 10), {D(3), D(5), L(5)}}};
+        if (v != 1) st.push_back({5, Q(44, 10), {D(4), D(6)}});
+        if (v == 2) std::reverse(st.begin(), st.end());
+        s.st = st; extra.push_back(s); }
+      { Spec2 s; s.name = "forward-intersection"; s.pts = {P("A", 0, 0, 'f'), P("B", 500, 0, 'f'), P("C", 250, -400, 'f'), P("P", 180, 320, 'a'), P("Q", -260, -150, 'a')};
+        s.st = {{0, Q(61, 10), {D(1), D(3), D(4)}}, {1, Q(2, 10), {D(0), D(3), D(4)}}, {2, Q(35, 10), {D(0), D(3), D(4)}}}; extra.push_back(s); }
+      { Spec2 s; s.name = "distance-intersection"; s.pts = {P("A", 0, 0, 'f'), P("B", 500, 0, 'f'), P("C", 180, -135, 'f'), P("P", 180, 240, 'a'), P("Q", 320, -240, 'a')};
+        s.st = {{0, Q(0), {L(3), L(4)}}, {1, Q(0), {L(3), L(4)}}, {2, Q(0), {L(3), L(4)}}}; extra.push_back(s); }
+      { Spec2 s; s.name = "polar-single-orientation"; s.pts = {P("A", 0, 0, 'f'), P("B", -120, 350, 'f'), P("P", 240, 100, 'a'), P("Q", -300, -160, 'a'), P("R", 75, -180, 'a')};
+        s.st = {{0, Q(47, 10), {D(1), D(2), L(2), D(3), L(3), D(4), L(4)}}, {2, Q(21, 10), {D(0), D(4), L(4)}}}; extra.push_back(s); }
+      for (auto& s : extra) { int alg = (k++) % 3; auto sp = std::make_shared<Spec2>(s); add("net2d/consistent/" + s.name + "/" + ALGS[alg] + "/acord", "plane networks", [sp, alg] { case_consistent(*sp, alg, true); });
+        if (th) { int alg2 = (k++) % 3; add("net2d/consistent/" + s.name + "/" + ALGS[alg2] + "/given", "plane networks", [sp, alg2] { case_consistent(*sp, alg2, false); }); } } }
     for (auto& s : fixed) for (int omit = 0; omit < 2; omit++) { int alg = (k++) % 3; auto sp = std::make_shared<Spec2>(s); add("net2d/consistent/" + s.name + "/" + ALGS[alg] + (omit ? "/acord" : "/given"), "plane networks", [sp, alg, omit] { case_consistent(*sp, alg, omit != 0); }); } }
   if (on("C07")) { int k = 0; for (auto& s : fixed) for (int v : {2, 3, 10, 11, 12, 13, 14}) { if (v >= 10 && v - 10 >= (int)s.st.size()) continue; if (!th && v >= 10 && v != 10 && v != 12) continue; int alg = (k++) % 3; auto sp = std::make_shared<Spec2>(s); bool rev = (v >= 10) && ((v + k) % 2 == 0);      // the errors of the sets in decreasing order for every other turned set
       add("net2d/equiv/" + s.name + "/" + ALGS[alg] + "/variant" + std::to_string(v) + (rev ? "-decreasing" : ""), "plane networks", [sp, alg, v, rev] { g_reverse_order = rev; try { case_equiv(*sp, alg, v); } catch (...) { g_reverse_order = false; throw; } g_reverse_order = false; }); } }
